@@ -219,6 +219,8 @@ where
     }
 
     fn poll_flush(mut self: Pin<&mut Self>, cx: &mut Context<'_>) -> Poll<io::Result<()>> {
+        self.state.flush_barrier()?;
+
         self.io.poll_flush_unpin(cx).map_err(Into::into)
     }
 
